@@ -179,7 +179,13 @@ func HarnessC14Enum() {
 	y := verifPickInt(0, 1, 2, 65)
 	var data, member interface{}
 	var equal bool
-	switch verifChoose(5) {
+	switch verifChoose(6) {
+	case 5: // nil data and / or a nil member: nil equals nil and nothing else
+		opts := []interface{}{nil, float64(1), "a", []interface{}{}}
+		i, j := verifChoose(4), verifChoose(4)
+		verifAssume(i == 0 || j == 0)
+		data, member = opts[i], opts[j]
+		equal = i == j
 	case 0: // number vs number of possibly different Go type
 		data, member = genTypedNum(x), genTypedNum(y)
 		equal = x == y
@@ -235,4 +241,74 @@ func HarnessC14Unique() {
 	verifAssert(got == dup, "uniqueitems-duplicate-scan")
 	verifAssert(UniqueItems("p", "q", 3) == nil, "uniqueitems-non-slice-ignored")
 	verifReach("end")
+}
+
+// HarnessC14UniqueMixed: two or three elements that are numbers carried by possibly different Go
+// types, strings spelling numbers, or one-element slices of those: a duplicate is reported exactly
+// when two elements are equal as values (numerically equal numbers are equal whatever carries them;
+// a number never equals a string).
+func HarnessC14UniqueMixed() {
+	n := 2 + verifChoose(1+verifTier())
+	xs := make([]interface{}, 0, n)
+	type el struct {
+		v      int64
+		shape  int // 0 number, 1 string, 2 slice holding a number
+		sameGo bool
+	}
+	var els []el
+	dup := false
+	mixed := false
+	for i := 0; i < n; i++ {
+		v := verifPickInt(0, 1, 2)
+		shape := verifChoose(3)
+		var x interface{}
+		kind := verifChoose(5)
+		switch shape {
+		case 0:
+			x = []interface{}{v, float64(v), int32(v), uint8(v), float32(v)}[kind]
+		case 1:
+			x = []string{"0", "1", "2"}[v]
+		default:
+			x = []interface{}{[]interface{}{v, float64(v), int32(v), uint8(v), float32(v)}[kind]}
+		}
+		for j, w := range els {
+			if w.shape == shape && w.v == v {
+				dup = true
+				if shape != 1 && reflectKindDiffers(xs[j], x) {
+					mixed = true
+				}
+			}
+		}
+		els = append(els, el{v: v, shape: shape})
+		xs = append(xs, x)
+	}
+	verifKF("C14-KF-UNIQUE-MIXED-KINDS", mixed)
+	got := UniqueItems("p", "q", xs) != nil
+	verifObserve("got", got)
+	verifAssert(got == dup, "uniqueitems-is-value-equality-across-go-types")
+	verifReach("end")
+}
+
+// reflectKindDiffers: the two values (numbers, or one-element slices of numbers) are carried by different Go types
+func reflectKindDiffers(a, b interface{}) bool {
+	if as, ok := a.([]interface{}); ok {
+		return reflectKindDiffers(as[0], b.([]interface{})[0])
+	}
+	switch a.(type) {
+	case int64:
+		_, same := b.(int64)
+		return !same
+	case float64:
+		_, same := b.(float64)
+		return !same
+	case int32:
+		_, same := b.(int32)
+		return !same
+	case uint8:
+		_, same := b.(uint8)
+		return !same
+	default:
+		_, same := b.(float32)
+		return !same
+	}
 }
